@@ -15,6 +15,7 @@ ap.add_argument("--src", default="/tmp/seed2/out")
 ap.add_argument("--only", default="")
 ap.add_argument("--jobs", type=int, default=6)
 ap.add_argument("--force", action="store_true")
+ap.add_argument("--round", type=int, default=2)
 a = ap.parse_args()
 
 
@@ -81,7 +82,7 @@ def work(src):
             except Exception:  # noqa
                 pass
             meta = {
-                "property": pid, "seed": mk, "round": 2,
+                "property": pid, "seed": mk, "round": a.round,
                 "summary": notes.get("summary", ""), "needs": notes.get("needs", ""), "files": notes.get("files", []),
                 "author": "independent sub-agent given only the property record and a scratch worktree of /repo HEAD (nothing from /verif)",
                 "agent_ran": notes.get("ran", []),
